@@ -49,8 +49,16 @@ def gen_io_program(rnd):
         return cellp[0]
 
     n = rnd.choice((20, 40, 80))
+    # a third of the programs lock the paging early (bit 5 of 0x7FFD) and go on writing to the port: wherever the run is
+    # split afterwards, the resumed half must still ignore those writes
+    lock_at = rnd.randrange(2, 12) if rnd.random() < 0.33 else -1
     while len(code) < n:
         k = rnd.randrange(12)
+        if lock_at >= 0 and len(code) >= lock_at:
+            v = rnd.choice((0, 1, 3, 4, 6, 7)) | rnd.choice((0, 0x10)) | 0x20
+            code += [0x01, 0xFD, 0x7F, 0x3E, v, 0xED, 0x79]
+            lock_at = -1
+            continue
         if k == 0:      # select an AY register (or none)
             v = rnd.choice((0, 1, 7, 8, 13, 14, 15, 16, 17, 0x1F, 0x20, 0x8E, 0xFF, rnd.randrange(256)))
             code += [0x01, 0xFD, 0xFF, 0x3E, v, 0xED, 0x79]
